@@ -454,7 +454,15 @@ class Engine:
 
         cid, parent, how = cmd["cid"], cmd["parent"], cmd["how"]
         if parent is None:
-            ctx = Context()
+            if self.p.get("equal_roots"):
+                # root contexts of a subclass with value semantics: all of them compare and hash equal
+                # (think of contexts compared by a request id); they are still different contexts
+                if not hasattr(self, "_EqRoot"):
+                    self._EqRoot = type("EqRoot", (Context,), {"__eq__": lambda a, b: type(a) is type(b), "__hash__": lambda a: 11})
+                ctx = self._EqRoot()
+                self.inc("value_equal_root_contexts")
+            else:
+                ctx = Context()
         elif how == "explicit":
             ctx = Context(self.ctx_objs[parent])
         else:  # implicit: constructed inside the parent's task, where it is the current context
@@ -924,7 +932,7 @@ class Engine:
         op = rng.choices(ops, [w[k] for k in ops])[0]
         if op == "construct":
             roots = sum(1 for mc in m.ctxs.values() if mc.parent is None and mc.state != "closed")
-            if roots < p["max_roots"] and rng.random() < 0.08:
+            if roots < p["max_roots"] and rng.random() < (0.4 if p.get("equal_roots") else 0.08):
                 return {"op": "construct", "cid": self.fresh(), "parent": None, "how": "root", "then_enter": True}
             deep = [c for c in open_ if self.depth(c) < p["max_depth"]]
             if not deep:
@@ -1065,6 +1073,7 @@ def default_params(rng: Any, **over: Any) -> dict[str, Any]:
         "p_invalid": 0.05,
         "weights": dict(DEFAULT_WEIGHTS),
         "apis": list(ALL_APIS),
+        "equal_roots": rng.random() < 0.3,
     }
     p.update(over)
     return p
